@@ -12,4 +12,12 @@ theorem Video_unpack_state_independent (t u : State) (buf : Bytes) (h : (unpack 
   repeat' split
   all_goals simp_all
 
+set_option maxRecDepth 20000 in
+/-- non-vacuity: a video payload object holding two stale chunks decodes a payload of one 188-byte transport packet -/
+example :
+    let a : State := ⟨0x1000, 1, [[0x47, 0x01, 0x00, 0x10] ++ List.replicate 184 0xAB]⟩
+    let t : State := ⟨5, 0, [[1], [2]]⟩
+    ∃ b, pack a = .ok b ∧ b.length = 192 ∧ (unpack t b).2 = .ok () ∧ (unpack t b).1.blocks.length = 1 :=
+  ⟨_, rfl, rfl, rfl, rfl⟩
+
 end Acra.Props.C13
